@@ -88,6 +88,35 @@ func H_C18_UndefinedKey() {
 	vrt.Assert(err != nil, "undefined-extension-key-rejected")
 }
 
+// H_C18_DerivedKeys: a key derived from a registered extension key - a sub-key appended with '+', a suffix appended
+// with '-', the last character removed - is defined (ExtensionForKey) and accepted (Extensions.Validate, with a
+// value the base key allows) only if the published definition files define that very key.
+func H_C18_DerivedKeys() {
+	vrt.Unwind(5000)
+	defs := c18Defs()
+	d := defs[vrt.Choice("def", len(defs))]
+	var k cbc.Key
+	switch vrt.Choice("shape", 3) {
+	case 0:
+		k = cbc.Key(string(d.Key) + "+zz")
+	case 1:
+		k = cbc.Key(string(d.Key) + "-zz")
+	default:
+		k = cbc.Key(string(d.Key)[:len(d.Key)-1])
+	}
+	_, _, found := vrt.PublishedExtension(string(k))
+	kd := ExtensionForKey(k)
+	vrt.Assert(kd == nil || found, "derived-key-defined-only-if-published")
+	val := cbc.Code("x")
+	if len(d.Values) > 0 {
+		val = d.Values[0].Code
+	}
+	err := Extensions{k: val}.Validate()
+	if !found {
+		vrt.Assert(err != nil, "derived-undefined-key-rejected")
+	}
+}
+
 // H_C18_ComboKeys: category and rate keys of a tax combo are accepted only if the regime that applies - the
 // combo's own country when it names one, otherwise the document's - defines them; with no regime, a rate key
 // is refused. (Struct validation runs through the engine's model of the validation library's dispatcher.)
